@@ -1,21 +1,110 @@
 /-
-  C03 — undoing a move restores the position exactly (property theorems only).
+  C03 — undoing a move restores the position exactly (property theorems + non-vacuity examples only;
+  the proofs live in Proofs/Token, Proofs/BoardBasics, Proofs/MakeUndo*).
+
+  Vocabulary:  `WF b`      the three redundant placements of `b` agree (⇔ `Board.wf b = true`, `wf_iff`);
+               `MakeOK b m` the local facts MakeMove/UndoMove rely on (Proofs/MakeUndoSteps);
+               `Board.valid b`, `isPseudoLegal b m`  the quantifier text of the property — they imply
+               `WF b` and `MakeOK b m` (`isPseudoLegal_makeOK`).
+  All statements hold for arbitrary Zobrist key tables `K` and compare the WHOLE board structure
+  (placements, rights, en-passant square, both counters, the entire hash history).
 -/
-import ChessVerif.Proofs.Token
+import ChessVerif.Proofs.MakeUndoNested
+import ChessVerif.Proofs.MakeUndoPseudo
 
 namespace ChessVerif.Props.C03
 open ChessVerif Board
 
-/-- A null move followed by its undo restores every attribute of the position (placements, rights,
-    en-passant target, both counters, the whole hash history), for arbitrary Zobrist keys. -/
+/-- The four fields of the packed token do not overlap. -/
+theorem token_masks_disjoint :
+    fiftyCntMask &&& castlingChangeMask = 0 ∧ fiftyCntMask &&& epChangeMask = 0 ∧
+    fiftyCntMask &&& captureMask = 0 ∧ castlingChangeMask &&& epChangeMask = 0 ∧
+    castlingChangeMask &&& captureMask = 0 ∧ epChangeMask &&& captureMask = 0 := Board.token_masks_disjoint
+
+/-- The token as `MakeMove` builds it (clock, castling delta, captured piece, en-passant delta, in this
+    order, starting from any word): each getter returns what was stored — for all int8 clocks including
+    negative ones, all 4-bit castling deltas, all pieces, all 6-bit en-passant deltas. -/
+theorem token_fields_roundtrip (r0 : Reverse) (fc : Int) (cc : Castles) (p : Piece) (e : Nat)
+    (h1 : -128 ≤ fc) (h2 : fc ≤ 127) (he : e < 64) :
+    let r := (((r0.setFiftyCnt fc).setCastlingChange cc).setCapture p).setEnPassantChange e
+    r.fiftyCnt = fc ∧ r.castlingChange = cc ∧ r.capture = p ∧ r.enPassantChange = e :=
+  Board.token_fields_roundtrip r0 fc cc p e h1 h2 he
+
+/-- Every pseudo-legal move of a valid position meets the local preconditions `MakeOK`. -/
+theorem isPseudoLegal_makeOK {b : Board} {m : Move} (hv : b.valid = true) (hpl : isPseudoLegal b m = true) :
+    MakeOK b m := Board.isPseudoLegal_makeOK hv hpl
+
+/-- A move made and then undone gives back the identical board (local hypotheses). -/
+theorem undo_make (K : Keys) {b : Board} {m : Move} (h : WF b) (ok : MakeOK b m) :
+    undoMove (makeMove K b m).1 m (makeMove K b m).2 = b := Board.undo_make K h ok
+
+/-- … in the property's own words: any pseudo-legal move (legal or not) of any valid position. -/
+theorem undo_make_valid (K : Keys) {b : Board} {m : Move} (hv : b.valid = true) (hpl : isPseudoLegal b m = true) :
+    undoMove (makeMove K b m).1 m (makeMove K b m).2 = b := by
+  have hw : WF b := (wf_iff b).2 (by unfold valid at hv; simp only [Bool.and_eq_true] at hv; exact hv.1)
+  exact Board.undo_make K hw (Board.isPseudoLegal_makeOK hv hpl)
+
+/-- A null move followed by its undo restores every attribute of the position. -/
 theorem undoNull_makeNull (K : Keys) (b : Board) (hep : b.ep < 64) :
-    undoNull (makeNull K b).1 (makeNull K b).2 = b := by
-  unfold makeNull undoNull
-  by_cases h : b.ep = 0
-  · simp [h, Reverse.enPassantChange]
-    cases b; simp_all [epChangeMask, epChangeShift]
-  · have := ep_roundtrip_zero ⟨b.ep, hep⟩
-    simp [h]
-    cases b; simp_all
+    undoNull (makeNull K b).1 (makeNull K b).2 = b := Board.undoNull_makeNull' K b hep
+
+/-- Making a move keeps the representations consistent (so the next make/undo pair is covered too). -/
+theorem wf_make (K : Keys) {b : Board} {m : Move} (h : WF b) (ok : MakeOK b m) : WF (makeMove K b m).1 :=
+  Board.wf_make K h ok
+
+theorem wf_null (K : Keys) {b : Board} (h : WF b) : WF (makeNull K b).1 := Board.wf_null K h
+
+/-- Arbitrary nesting depth: any line of moves and null moves (each move meeting `MakeOK` when it is
+    made) followed by the reverse sequence of undos returns to the identical board. -/
+theorem undo_nested (K : Keys) {b b' : Board} (ops : List Op) {toks : List Reverse} (h : WF b) (hep : b.ep < 64)
+    (hrun : runMakes K b ops = some (b', toks)) : runUndos b' ops.reverse toks = b :=
+  Board.undo_nested K ops h hep hrun
+
+/-! ### non-vacuity -/
+
+/-- build a board from a list of men (no hash history). -/
+def mkBoard (men : List (Nat × Color × Piece)) (stm : Color) (ep : Nat) (castles : Castles) : Board :=
+  let b := men.foldl (fun b x => (addPiece zeroKeys b x.2.1 x.2.2 x.1).1) Board.empty
+  { b with stm := stm, ep := ep, castles := castles, fullMoves := 1 }
+
+open Color Piece in
+/-- the initial position. -/
+def startBoard : Board :=
+  mkBoard ([(0, white, rook), (1, white, knight), (2, white, bishop), (3, white, queen), (4, white, king),
+            (5, white, bishop), (6, white, knight), (7, white, rook)] ++
+           (List.range 8).map (fun i => (8 + i, white, pawn)) ++ (List.range 8).map (fun i => (48 + i, black, pawn)) ++
+           [(56, black, rook), (57, black, knight), (58, black, bishop), (59, black, queen), (60, black, king),
+            (61, black, bishop), (62, black, knight), (63, black, rook)]) white 0 15
+
+open Color Piece in
+/-- `r3k2r/1P6/8/3pP3/8/8/8/R3K2R w KQkq d6`: castling both ways, en passant e5xd6, promotions
+    b7-b8 and b7xa8. -/
+def richBoard : Board :=
+  mkBoard [(4, white, king), (0, white, rook), (7, white, rook), (49, white, pawn), (36, white, pawn),
+           (60, black, king), (56, black, rook), (63, black, rook), (35, black, pawn)] white 43 15
+
+theorem start_wf : WF startBoard := (wf_iff _).2 (by decide +kernel)
+theorem rich_wf : WF richBoard := (wf_iff _).2 (by decide +kernel)
+theorem start_valid : startBoard.valid = true := by decide +kernel
+theorem rich_valid : richBoard.valid = true := by decide +kernel
+
+-- e2e4 in the initial position; castling short and long, en passant, promotion, capturing promotion
+example : MakeOK startBoard (Move.mk 12 28 0) := by decide +kernel
+example : MakeOK richBoard (Move.mk 4 6 0) := by decide +kernel
+example : MakeOK richBoard (Move.mk 4 2 0) := by decide +kernel
+example : MakeOK richBoard (Move.mk 36 43 0) := by decide +kernel
+example : MakeOK richBoard (Move.mk 49 57 5) := by decide +kernel
+example : MakeOK richBoard (Move.mk 49 56 5) := by decide +kernel
+-- the hypotheses of `undo_make_valid` / `isPseudoLegal_makeOK`
+example : richBoard.valid = true ∧ isPseudoLegal richBoard (Move.mk 36 43 0) = true := by decide +kernel
+example : startBoard.valid = true ∧ isPseudoLegal startBoard (Move.mk 12 28 0) = true := by decide +kernel
+example : richBoard.ep < 64 := by decide
+-- lines of depth 5 and 3 (castling by both sides, a null move; en passant, king move, capturing promotion)
+example : (runMakes zeroKeys richBoard [.mk (Move.mk 4 6 0), .mk (Move.mk 60 58 0), .null, .mk (Move.mk 35 27 0),
+    .mk (Move.mk 36 44 0)]).isSome = true := by decide +kernel
+example : (runMakes zeroKeys richBoard [.mk (Move.mk 36 43 0), .mk (Move.mk 60 52 0), .mk (Move.mk 49 56 5)]).isSome = true := by
+  decide +kernel
+-- a negative clock survives the token
+example : (Reverse.setFiftyCnt 0 (-128)).fiftyCnt = -128 := by decide +kernel
 
 end ChessVerif.Props.C03
